@@ -56,7 +56,11 @@ class Number(NumericElement[float]):
     """
 
     def construct(self, value, _property):  # pylint: disable=no-self-use
-        return float(value)
+        try:
+            return float(value)
+        except OverflowError:
+            # Integers beyond the float range are kept exactly.
+            return value
 
     @property
     def type_validator(self):
